@@ -460,6 +460,12 @@ func (d *Def[C]) judge(c C, res *Result) (caseJSON []byte, unknown []Violation) 
 	caseJSON, _ = json.Marshal(c)
 	record(d.Property, d.check(), d.Rule, caseJSON, res)
 	for _, v := range res.Violations {
+		if isHarnessProblem(v) {
+			// not a verdict about the library: the run is inconclusive (the driver maps this to exit 2)
+			Extra(d.Property, d.check(), "harness_errors", 1)
+			harnessErrors = append(harnessErrors, d.check()+": ["+v.Key+"] "+v.Msg)
+			continue
+		}
 		if IsKnown(d.Property, v.Key) {
 			recordKnown(d.Property, d.check(), v.Key)
 		} else if surveyMode() {
@@ -469,6 +475,22 @@ func (d *Def[C]) judge(c C, res *Result) (caseJSON []byte, unknown []Violation) 
 		}
 	}
 	return
+}
+
+var harnessErrors []string
+
+// isHarnessProblem: class keys starting with "harness" and anything caused by the machine running out of
+// ephemeral ports say nothing about the property.
+func isHarnessProblem(v Violation) bool {
+	if strings.HasPrefix(v.Key, "harness") {
+		return true
+	}
+	for _, s := range []string{"cannot assign requested address", "address already in use", "too many open files"} {
+		if strings.Contains(v.Msg, s) {
+			return true
+		}
+	}
+	return false
 }
 
 // Survey mode (development aid, VERIF_SURVEY=1): unknown violations are
@@ -606,6 +628,7 @@ func (d *Def[C]) Check(t *testing.T) {
 	_ = flag.Set("rapid.seed", strconv.FormatUint(seedFor(d.check()), 10))
 	_ = flag.Set("rapid.nofailfile", "true")
 	_ = os.Remove(d.failPath())
+	Extra(d.Property, d.check(), "requested_cases", int64(d.count()))
 	rapid.Check(t, func(rt *rapid.T) {
 		c := d.Gen(rt)
 		if d.Journal {
@@ -710,6 +733,16 @@ func Regress(t *testing.T, property string) {
 // Main is the TestMain body.
 func Main(m *testing.M) {
 	code := m.Run()
+	if len(harnessErrors) > 0 {
+		n := len(harnessErrors)
+		if n > 5 {
+			harnessErrors = harnessErrors[:5]
+		}
+		fmt.Printf("HARNESS-ERROR %d cases could not be judged, e.g.:\n%s\n", n, strings.Join(harnessErrors, "\n"))
+		if code == 0 {
+			code = 3
+		}
+	}
 	if os.Getenv("VERIF_CHILD_RESULT") == "" {
 		Flush()
 		flushSurvey()
